@@ -18,7 +18,7 @@ import z3
 from pyvc import ops
 from pyvc.values import Ext, NoOp, PyRaise, Unsupported, VBound, VClass, VDict, VList, VObj, VSet, stub
 
-from .api_common import CollectionsStub, ModuleStub
+from .api_common import CollectionsStub, ModuleStub, itertools_module
 
 MODEL = "pymoca.backends.casadi.model"
 GEN = "pymoca.backends.casadi.generator"
@@ -179,7 +179,7 @@ def install(eng):
     typing = ModuleStub("typing", {})
     eng.ext_modules.update({"casadi": casadi(eng), "numpy": np_module(),
                             "logging": ModuleStub("logging", {"getLogger": stub(lambda eng, *a: NoOp())}),
-                            "itertools": ModuleStub("itertools", {}), "re": ModuleStub("re", {}), "sys": ModuleStub("sys", {"maxsize": 2 ** 63 - 1}),
+                            "itertools": itertools_module(), "re": ModuleStub("re", {}), "sys": ModuleStub("sys", {"maxsize": 2 ** 63 - 1}),
                             "collections": CollectionsStub(), "typing": typing})
     eng.call_contracts.clear()
     eng.loop_specs.clear()
